@@ -49,7 +49,12 @@ class ZConfigParser:
         self.defines = defines
 
     def nextline(self):
-        line = self.file.readline()
+        try:
+            line = self.file.readline()
+        except UnicodeDecodeError as e:
+            # a text-mode file whose bytes do not fit its encoding
+            self.lineno += 1
+            self.error(f"cannot decode line: {e}")
         if line:
             self.lineno += 1
             return False, line.strip()
